@@ -103,26 +103,6 @@ func vpRefContainer(b []byte, length, kind, directBits int) (vals []int, used in
 	return vals, pos, true
 }
 
-const vpMaxState = 1 << 14 // ids assumed inside the registry range (15 bits for blocks)
-
-func vpStateID() BlocksState {
-	v := vp.Int()
-	vp.Assume(v >= 0 && v < vpMaxState)
-	return BlocksState(v)
-}
-
-func vpBiomeID() BiomesState {
-	v := vp.Int()
-	vp.Assume(v >= 0 && v < 1<<(uint(biome.BitsPerBiome)-1))
-	return BiomesState(v)
-}
-
-func vpIndex(n int) int {
-	i := vp.Int()
-	vp.Assume(i >= 0 && i < n)
-	return i
-}
-
 // histories from the initial single-value state (block states): 0 -> 4 bits.
 func VP_C12_hist_state() {
 	const L = 8
